@@ -20,12 +20,21 @@ impl<'a> SchedReader<'a> {
     /// Arbitrary schedule: each of the first SCHED calls is either an
     /// interrupted call (at most one in total) or a short read of 1..=3 bytes.
     pub fn any(data: &'a [u8]) -> Self {
-        let want: [usize; SCHED] = kani::any();
-        let eintr: [bool; SCHED] = kani::any();
+        Self::any_n(data, SCHED)
+    }
+
+    /// Only the first `sched` calls are symbolic (short read or interrupted); later calls deliver fully.
+    pub fn any_n(data: &'a [u8], sched: usize) -> Self {
+        let mut want: [usize; SCHED] = kani::any();
+        let mut eintr: [bool; SCHED] = kani::any();
         let mut n = 0;
         let mut i = 0;
         while i < SCHED {
-            kani::assume(want[i] >= 1 && want[i] <= 3);
+            if i >= sched {
+                want[i] = usize::MAX;
+                eintr[i] = false;
+            }
+            kani::assume(want[i] >= 1 && (want[i] <= 3 || i >= sched));
             if eintr[i] {
                 n += 1;
             }
